@@ -2279,6 +2279,11 @@ static int add_mapping_entry(vnaproperty_yaml_t *vymlp, int t_map,
 }
 
 /*
+ * YAML_IMPORT_MAX_DEPTH: deepest nesting of collections accepted on import
+ */
+#define YAML_IMPORT_MAX_DEPTH	1000
+
+/*
  * yaml_import: import properties from the given YAML node
  *   @vymlp:    common argument structure
  *   @rootptr:  address of property tree root
@@ -2300,6 +2305,20 @@ static int yaml_import(vnaproperty_yaml_t *vymlp,
 		"%s (line %ld) error: alias refers to a collection "
 		"that contains it",
 		vymlp->vyml_filename, node->start_mark.line + 1);
+	goto out;
+    }
+
+    /*
+     * This function, and those that later export, copy and delete the
+     * tree, recurse once per level: refuse absurdly deep nesting instead
+     * of running out of stack.
+     */
+    if (depth > YAML_IMPORT_MAX_DEPTH) {
+	_vnaproperty_yaml_error(vymlp, VNAERR_SYNTAX,
+		"%s (line %ld) error: properties are nested more than "
+		"%d levels deep",
+		vymlp->vyml_filename, node->start_mark.line + 1,
+		YAML_IMPORT_MAX_DEPTH);
 	goto out;
     }
     switch (node->type) {
